@@ -56,6 +56,10 @@ def generate(rng, tier='quick', **kw):
     ops.append({'t': round(t, 6), 'op': 'call', 'id': 'c%d' % i, 'timeout': to,
                 'svc': None if svc is None else round(max(svc, 0.0005), 6),
                 'kind': 'err' if rng.random() < 0.15 else 'ok'})
+    if faults and svc is not None and rng.random() < 0.05:
+      # the peer answers and closes the connection at once: the connection dies
+      # right after it has been released, before the pool's hand-off runs
+      ops[-1]['die_after_reply'] = True
   scn = {'world': 'w_pool', 'cfg': {'min': mn, 'max': mx, 'queue': queue}, 'conns': conns,
          'ops': ops}
   if rng.random() < 0.25:
@@ -178,6 +182,11 @@ class World(object):
       r.sink.complete(r, value=('reply', r.call_id))
     else:
       r.sink.complete(r, error=StubError('boom ' + str(r.call_id)))
+    if c is not None and (c.spec or {}).get('die_after_reply'):
+      def die(sink=r.sink):
+        if sink.die(signal=True, fail_inflight=False):
+          self.REC.fault('conn_die_after_reply')
+      self.loop.run_callback(die)
 
   # -- quiescent-point oracle ----------------------------------------------
   def settle(self):
